@@ -50,6 +50,21 @@ def node_case(t, group):
                 tags=["deg%d" % deg])
 
 
+def dup_rule_tree(rng):
+    """one tree in which the same bare production occurs twice, once continuous and once discontinuous, in either order"""
+    from impl import mk_leaf, mk_node
+    first_cont = rng.random() < 0.5
+    labs = [rng.choice(["NN", "VB", "ART"]) for _ in range(2)]
+    def vp(a, b):
+        return mk_node("VP", [mk_leaf(a, labs[0], "x", "--", "--", "--"), mk_leaf(b, labs[1], "y", "--", "--", "--")], edge="--", lemma="--", morph="--")
+    if first_cont:
+        kids = [vp(1, 2), vp(3, 5), mk_leaf(4, "ADV", "z", "--", "--", "--")]
+    else:
+        kids = [vp(1, 3), mk_leaf(2, "ADV", "z", "--", "--", "--"), vp(4, 5)]
+    rng.shuffle(kids)
+    return mk_node("VROOT", [mk_node("S", kids, edge="--", lemma="--", morph="--")], edge="--", lemma="--", morph="--")
+
+
 def disco_case(rng):
     cfg = treegen.Cfg(n_min=2, n_max=10, p_disc=rng.choice([0.0, 0.4, 0.7]), p_punct=0.0, labels=treegen.PLAIN_LABELS,
                       none_fields=False, max_arity=4)
@@ -128,6 +143,10 @@ def gen(seed, tier, scale):
         rng = case_rng(seed, ID, idx)
         cfg = treegen.Cfg(n_min=1, n_max=12, p_disc=rng.choice([0.2, 0.5, 0.8]), p_unary=0.2, none_fields=False)
         yield idx, node_case(treegen.gen_tree(rng, cfg), "random")
+        idx += 1
+    for _ in range((60 if tier == "quick" else 600) * scale):
+        rng = case_rng(seed, ID, idx)
+        yield idx, node_case(dup_rule_tree(rng), "same-rule-cont-and-disc")
         idx += 1
     for _ in range((600 if tier == "quick" else 10000) * scale):
         rng = case_rng(seed, ID, idx)
